@@ -495,11 +495,11 @@ def getterNames : List String :=
 /-- the premise of `read_sees_whole_view`, tied to the source: every getter of
 `clusterservices.go` loads exactly the one field the model's query reads, exactly once
 (transitively), stores nothing; `MakeMembers` stores the four fields after the pure builder
-returned; `Cluster`'s getters call one directory getter once and never replace the directory
+(whatever it and its helpers are called) returned, and that builder cannot touch a directory object; `Cluster`'s getters call one directory getter once and never replace the directory
 object.  The facts are regenerated from /repo on every run. -/
 theorem getter_facts_match_source :
     (∀ q : Query, (q.goName, [q.field.goName]) ∈ Cell2v.Gen.C08.methodLoads) ∧
-    (∀ e ∈ Cell2v.Gen.C08.methodLoads, e.1 ∈ ["MakeMembers", "dumpBrief"] ∨ (e.1 ∈ getterNames ∧ e.2.length = 1)) ∧
+    (∀ e ∈ Cell2v.Gen.C08.methodLoads, e.1 = "MakeMembers" ∨ (e.1 ∈ getterNames ∧ e.2.length = 1)) ∧
     (∀ e ∈ Cell2v.Gen.C08.methodStores, e.1 ≠ "MakeMembers" → e.2 = []) ∧
     ("MakeMembers", storeOrder.map Ref.goName) ∈ Cell2v.Gen.C08.methodStores ∧
     Cell2v.Gen.C08.buildBeforeStores = true ∧ Cell2v.Gen.C08.builderPure = true ∧
